@@ -11,6 +11,7 @@ def showFrames (fs : List Frame) : String :=
 /-- stateful: the reader's carry-over buffer -/
 def step (rd : RdState) : List String → Option (RdState × String)
   | ["c02.reset"] => some ({}, "ok")
+  | ["c02.reopen"] => some (reopen rd, "ok")
   | ["c02.parse1", h] =>
     match ofHex h with
     | none => some (rd, "bad-op")
